@@ -1831,7 +1831,7 @@ rrul_fill_Hly(echs_instant_t *restrict tgt, size_t nti, rrulsp_t rr)
 				     if (++m > 12U) {
 					     y++;
 					     m = 1U;
-					     yd -= maxy - 1;
+					     yd -= maxy;
 					     maxy = (y % 4U) ? 365 : 366;
 				     }
 				     maxd = __get_ndom(y, m);
